@@ -47,12 +47,12 @@ pub enum MEnum<'a> {
     },
 }
 
-#[derive(Debug, Serialize, Deserialize, PartialEq)]
+#[derive(Debug, Serialize, Deserialize, PartialEq, Clone)]
 pub struct MStructParams {
     pub i: u32,
     pub pad: String,
 }
-#[derive(Debug, Serialize, Deserialize, PartialEq)]
+#[derive(Debug, Serialize, Deserialize, PartialEq, Clone)]
 #[serde(deny_unknown_fields)]
 pub struct MStruct {
     pub method: String,
@@ -143,13 +143,10 @@ pub struct Obs {
 /// (is a JSON document, is an object with an `error` member) — decided with the same decoder
 /// and the same leniency towards ignored content as every other isolated decode.
 pub fn has_error_member(frame: &[u8]) -> (bool, bool) {
-    #[derive(Deserialize)]
-    struct Probe {
-        error: Option<serde::de::IgnoredAny>,
-    }
     let json = serde_json::from_slice::<serde::de::IgnoredAny>(frame).is_ok();
-    match serde_json::from_slice::<Probe>(frame) {
-        Ok(p) => (json, p.error.is_some()),
+    // presence of the member, whatever its value (`null` included)
+    match serde_json::from_slice::<serde_json::Map<String, serde_json::Value>>(frame) {
+        Ok(m) => (json, m.contains_key("error")),
         Err(_) => (json, false),
     }
 }
@@ -184,6 +181,25 @@ macro_rules! reply_target {
                     Outcome::new("decode_err", String::new())
                 };
                 (obs, out)
+            }
+            /// The payload each arm would hand to the caller: (std, usr, rep), independent of any
+            /// precedence between the arms.
+            pub fn arm_payloads(frame: &[u8]) -> (String, String, String) {
+                let c = |s: String| $crate::util::canon(&s);
+                (
+                    serde_json::from_slice::<varlink_service::Error>(frame).map(|s| c(format!("{s:?}"))).unwrap_or_default(),
+                    serde_json::from_slice::<$e>(frame).map(|u| c(format!("{u:?}"))).unwrap_or_default(),
+                    serde_json::from_slice::<Reply<$p>>(frame).map(|r| c(format!("{r:?}"))).unwrap_or_default(),
+                )
+            }
+            /// The same frame through `call_method` (send a call, receive the reply).
+            pub async fn call_method(conn: &mut Connection<Sock>) -> Outcome {
+                let call = zlink_core::Call::new(MEnum::Ping);
+                match conn.call_method::<MEnum<'_>, $p, $e>(&call).await {
+                    Ok(Ok(r)) => Outcome::new("success", format!("{r:?}")),
+                    Ok(Err(e)) => Outcome::new("method_err", format!("{e:?}")),
+                    Err(e) => Outcome::err(&e),
+                }
             }
         }
         impl Target for $t {
